@@ -41,6 +41,11 @@ def cases(tier):
                                   'none')], {'rp': 'p'}):
     c['ir']['external'] = True
     yield c
+  # a zero-element constant next to ordinary ones (data present, length 0)
+  for c in universe.graph_cases([(1, irm.WEIGHT_OPS + ('ADD', 'RESHAPE'),
+                                  'all', 'none')], {'rp': 'p'}):
+    c['ir']['zlen'] = True
+    yield c
   yield from universe.graph_cases(
       [(2, eg.T21 + eg.U, 'first' if tier == 'quick' else 'all', 'one')],
       {'rp': 'q2' if tier == 'quick' else 'p'})
@@ -113,10 +118,21 @@ def oracle(ctx):
     return [ctx.fail('buffer_count', f'{len(S.buffers)} -> {len(L.buffers)}')]
   ranges = []
   nconst = 0
+  nempty = 0
   for i, (lb, sb) in enumerate(zip(L.buffers, S.buffers)):
     sdata = bytes(np.asarray(sb.data, dtype=np.uint8).tobytes()) \
         if sb.data is not None and len(sb.data) else None
     has_inline = lb.data is not None and len(lb.data)
+    if sdata is None and sb.data is not None and not isinstance(sb.data, int):
+      # data present but empty (zero-element constant): the large form either
+      # keeps the empty vector inline or points at zero bytes at an aligned,
+      # in-bounds offset; it must not select any byte
+      off, size = int(lb.offset or 0), int(lb.size or 0)
+      nempty += 1
+      if has_inline or size != 0 or off % 16 or off > len(large):
+        fails.append(ctx.fail('zero_length_buffer',
+                              f'buffer {i}: offset {off} size {size}'))
+      continue
     if sdata is None:
       if has_inline or (lb.offset or 0) > 1 or (lb.size or 0) > 1:
         fails.append(ctx.fail('empty_buffer_gained_data', f'buffer {i}'))
